@@ -116,7 +116,7 @@ func c26GenMutants(c *vc.Ctx, thorough bool, root string, mu *sync.Mutex, disagr
 				os.MkdirAll(filepath.Join(dir, "i"), 0o755)
 				os.MkdirAll(filepath.Join(dir, "b"), 0o755)
 				ir := c26Interp(src, filepath.Join(dir, "i"))
-				br, err := c26Bash(src, filepath.Join(dir, "b"), 5*time.Second)
+				br, err := c26Bash(src, filepath.Join(dir, "b"), c26Timeout)
 				os.RemoveAll(dir)
 				c.Eval(1)
 				if err != nil || br.Timeout || (ir.Fatal != "" && !ir.Panicked) {
